@@ -70,7 +70,7 @@ def parseHead (b : Bytes) : Out (Icmp4 × Cursor) := do
   let (un, c) ← c.read 4
   let ((orig, recv, trans), c) ← readBody t c
   -- try_parse_extensions(stream)
-  let (ext, c) ← if extAllowed t then tryParseExt c (byteAt un 1 * 4) ExtS.default else pure (ExtS.default, c)
+  let (ext, c) ← tryParseExtIf (extAllowed t) c (byteAt un 1 * 4)
   pure (⟨t, code, check, un, orig, recv, trans, ext⟩, c)
 
 def parse (b : Bytes) : Out (Icmp4 × Inner) := do
